@@ -108,6 +108,7 @@ class SetObj:
     def __init__(self, K, present, n): self.K, self.present, self.n = K, list(present), list(n)
 
 def copyval(v):
+    if v.__class__.__name__ == 'Fx': return v
     if isinstance(v, TableObj): return TableObj(v.vals)
     if isinstance(v, BitsObj): return BitsObj(v.bits)
     if isinstance(v, VecObj): return VecObj(v.items)
@@ -272,7 +273,7 @@ class Interp:
     def rvalue(self, fr, s):
         s = s.strip()
         m = re.match(r'^(\w+)\((.*)\)$', s)
-        if m and m.group(1) in ('AddWithOverflow', 'SubWithOverflow', 'MulWithOverflow', 'Add', 'Sub', 'Mul', 'Div', 'Rem', 'Eq', 'Ne', 'Lt', 'Le', 'Gt', 'Ge', 'BitAnd', 'BitOr', 'BitXor', 'Shl', 'Shr', 'Not', 'Neg'):
+        if m and m.group(1) in ('AddWithOverflow', 'SubWithOverflow', 'MulWithOverflow', 'Add', 'Sub', 'Mul', 'Div', 'Rem', 'Eq', 'Ne', 'Lt', 'Le', 'Gt', 'Ge', 'BitAnd', 'BitOr', 'BitXor', 'Shl', 'Shr', 'ShlUnchecked', 'ShrUnchecked', 'Not', 'Neg'):
             args = [self.operand(fr, a) for a in split_top(m.group(2))]
             return self.binop(m.group(1), args)
         if s.startswith('&mut ') or s.startswith('&'):
@@ -332,6 +333,14 @@ class Interp:
         if op == 'Div': return z3.simplify(z3.UDiv(x, y)) if z3.is_bv_value(z3.simplify(y)) else UDIV(x, y)
         if op == 'Rem': return z3.simplify(z3.URem(x, y)) if z3.is_bv_value(z3.simplify(y)) else UREM(x, y)
         if op == 'Not': return z3.Not(x) if z3.is_bool(x) else ~x
+        if op == 'BitOr': return z3.Or(x, y) if z3.is_bool(x) else x | y
+        if op == 'BitAnd': return z3.And(x, y) if z3.is_bool(x) else x & y
+        if op == 'BitXor': return z3.Xor(x, y) if z3.is_bool(x) else x ^ y
+        if op == 'Mul': return x * y
+        if op in ('Shl', 'Shr', 'ShlUnchecked', 'ShrUnchecked'):
+            if y.size() != x.size(): y = z3.ZeroExt(x.size() - y.size(), y) if y.size() < x.size() else z3.Extract(x.size() - 1, 0, y)
+            return x << y if op.startswith('Shl') else z3.LShR(x, y)
+        if op == 'Neg': return -x
         raise Exception(op)
 
     def map_present(self, m, key):
@@ -528,12 +537,89 @@ class Interp:
         self.store(fr, self.parse_place(lhs), self.rvalue(fr, rhs))
 
 
-def solve(assertions, timeout_ms=600000):
-    """One non-incremental query with a fresh solver (keeps z3 on its bit-blasting tactic path;
-    push/pop would switch it to the much slower incremental core). -> (result, model|None)"""
+import os as _os, subprocess as _sp, tempfile as _tf
+
+SOLVER_STATS = {'z3': 0, 'cvc5_fallback': 0, 'xcheck': 0, 'xcheck_disagree': 0, 'z3_s': 0.0, 'cvc5_s': 0.0}
+Z3_FIRST_MS = int(_os.environ.get('VERIF_Z3_FIRST_MS', '20000'))
+XCHECK_EVERY = int(_os.environ.get('VERIF_XCHECK_EVERY', '0'))      # 0 = off; n = every n-th query is also given to cvc5
+
+
+def _cvc5(smt2, timeout_s, extra=()):
+    with _tf.NamedTemporaryFile('w', suffix='.smt2', delete=False) as f:
+        f.write(smt2)
+        path = f.name
+    try:
+        p = _sp.run(['cvc5', '--lang', 'smt2', '--produce-models', '--tlimit', str(int(timeout_s * 1000))] + list(extra) + [path],
+                    capture_output=True, text=True, timeout=timeout_s + 20)
+        out = p.stdout
+    except _sp.TimeoutExpired:
+        out = 'unknown'
+    finally:
+        _os.unlink(path)
+    first = out.strip().splitlines()[0] if out.strip() else 'unknown'
+    if first not in ('sat', 'unsat', 'unknown') or ('(error' in out and first != 'unsat'):
+        # an (error line before/with the verdict is inconclusive; the one (get-model) prints after `unsat` is expected
+        return 'error', out
+    return first, out
+
+
+def _model_from_cvc5(out, assertions):
+    """Rebuild a z3 model from cvc5's (get-model) output by asserting var = value."""
     s = z3.Solver()
-    s.set('timeout', timeout_ms)
     for a in assertions:
         s.add(a)
+    for m in re.finditer(r'\(define-fun (\S+) \(\) \(_ BitVec (\d+)\) #([xb])([0-9a-fA-F]+)\)', out):
+        name, w, base, val = m.group(1), int(m.group(2)), m.group(3), m.group(4)
+        v = int(val, 16 if base == 'x' else 2)
+        s.add(z3.BitVec(name.strip('|'), w) == z3.BitVecVal(v, w))
+    for m in re.finditer(r'\(define-fun (\S+) \(\) Bool (true|false)\)', out):
+        s.add(z3.Bool(m.group(1).strip('|')) == (m.group(2) == 'true'))
+    s.set('timeout', 60000)
+    return s.model() if s.check() == z3.sat else None
+
+
+def solve(assertions, timeout_ms=600000, z3_first_ms=None):
+    """One non-incremental query with a fresh solver (keeps z3 on its bit-blasting tactic path; push/pop would switch
+    it to the much slower incremental core). z3 first with a short limit, then cvc5 (plain, then --solve-bv-as-int=sum)
+    on the same SMT-LIB2 text. Any `(error` line or a disagreement between solvers is 'unknown'. -> (result, model|None)"""
+    import time as _t
+    s = z3.Solver()
+    first = min(timeout_ms, Z3_FIRST_MS if z3_first_ms is None else z3_first_ms)
+    s.set('timeout', first)
+    for a in assertions:
+        s.add(a)
+    t0 = _t.time()
     r = s.check()
-    return r, (s.model() if r == z3.sat else None)
+    SOLVER_STATS['z3'] += 1
+    SOLVER_STATS['z3_s'] += _t.time() - t0
+    n = SOLVER_STATS['z3']
+    if r != z3.unknown and not (XCHECK_EVERY and n % XCHECK_EVERY == 0):
+        return r, (s.model() if r == z3.sat else None)
+    smt2 = '(set-logic ALL)\n' + s.to_smt2().replace('(check-sat)', '(check-sat)\n(get-model)')
+    t0 = _t.time()
+    budget = max(30, (timeout_ms - first) / 1000.0)
+    # integer encoding that keeps the mod-2^k semantics first: decides multiply/shift/divide-by-constant kernels in a
+    # second that bit-blasting does not finish; then plain bit-vector mode
+    c, out = _cvc5(smt2, min(budget, 60), ['--solve-bv-as-int=sum'])
+    if c not in ('sat', 'unsat'):
+        c, out = _cvc5(smt2, min(budget, 300))
+    SOLVER_STATS['cvc5_s'] += _t.time() - t0
+    if r != z3.unknown:
+        SOLVER_STATS['xcheck'] += 1
+        if c in ('sat', 'unsat') and c != str(r):
+            SOLVER_STATS['xcheck_disagree'] += 1
+            return z3.unknown, None
+        return r, (s.model() if r == z3.sat else None)
+    SOLVER_STATS['cvc5_fallback'] += 1
+    if c == 'unsat':
+        return z3.unsat, None
+    if c == 'sat':
+        mdl = _model_from_cvc5(out, assertions)
+        return (z3.sat, mdl) if mdl is not None else (z3.unknown, None)
+    # last resort: z3 with the full budget
+    s2 = z3.Solver()
+    s2.set('timeout', max(1000, timeout_ms - first))
+    for a in assertions:
+        s2.add(a)
+    r2 = s2.check()
+    return r2, (s2.model() if r2 == z3.sat else None)
